@@ -1,6 +1,6 @@
 (** C16: the main theorems for the --dfa file.  The graph read from what the model of [DFA::to_dot]
     writes is, up to the order of nodes and edges, the graph the specification prescribes: for the
-    patched printer on every well-formed automaton, for the pinned printer outside the known classes. *)
+    patched printer on every well-formed automaton, for the old printer outside the known classes. *)
 From Coq Require Import Permutation.
 From CG Require Import Base.Prelude Model.Dfa Spec.DotRead Spec.DotSpec Model.Dot
      Proofs.DotLex Proofs.DotParse Proofs.DotSem Proofs.DotNames Proofs.DotStates Proofs.DotDfaItems
@@ -113,7 +113,7 @@ Proof.
   - now apply x_graph_equiv.
 Qed.
 
-(** ** The pinned printer agrees with the patched one outside the known classes *)
+(** ** The old printer agrees with the patched one outside the known classes *)
 Lemma insert_sorted_present x l : Sorted.StronglySorted N.lt l -> In x l -> insert_sorted x l = l.
 Proof.
   induction 1 as [|y r Hr IH Hy]; intro Hin; [destruct Hin|]. cbn.
@@ -131,13 +131,14 @@ Proof.
   - destruct (x <? y)%N; [cbn; now rewrite Hx|]. destruct (x =? y)%N; [reflexivity|]. cbn. now rewrite IH.
 Qed.
 
-Lemma node_lines_variant base d p :
-  phantom_zero d = false -> node_lines pinned base d p = node_lines patched base d p.
+Lemma node_lines_variant v base d p :
+  phantom_zero d = false -> node_lines v base d p = node_lines patched base d p.
 Proof.
   intro Hph. unfold node_lines.
-  assert (E : filter (fun s => negb (memN s (d_accepting d)) && negb (s =? d_start d)%N) (get_all_states pinned d)
+  assert (E : filter (fun s => negb (memN s (d_accepting d)) && negb (s =? d_start d)%N) (get_all_states v d)
               = filter (fun s => negb (memN s (d_accepting d)) && negb (s =? d_start d)%N) (get_all_states patched d)).
-  { unfold get_all_states. cbn [v_dead0 pinned patched]. fold (bitmap (trans_states d)).
+  { unfold get_all_states. cbn [v_dead0 patched]. fold (bitmap (trans_states d)).
+    destruct (v_dead0 v); [|reflexivity].
     unfold phantom_zero in Hph. apply negb_false_iff in Hph. apply memN_In in Hph.
     destruct (in_dec N.eq_dec 0%N (trans_states d)) as [Hin|Hn].
     - rewrite insert_sorted_present; [reflexivity|apply bitmap_sorted|now apply bitmap_in].
@@ -152,35 +153,41 @@ Definition subacc_ok (base : N) (subs : list dfa) (d : dfa) : Prop :=
                                 nthN (d_inputs d) (snd (fst t)) = Some (ISub k l) ->
                                 nthN subs k = Some sd -> d_accepting sd = [].
 
-Lemma transition_lines_variant base subs ids' d p t :
-  In t (iter_transitions d) -> labels_need_escape d = false -> subacc_ok base subs d ->
-  transition_lines pinned base subs ids' d p t = transition_lines patched base subs ids' d p t.
+(** the two ways a variant can agree with the fully patched one on the labels of [d] / on the dashed
+    edges: by doing the same, or because the difference does not show on this automaton *)
+Definition esc_agree (v : variant) (d : dfa) : Prop :=
+  (forall s, v_escape v s = escape_dot s) \/ (v_escape v = escape_quotes /\ labels_need_escape d = false).
+Definition sub_agree (v : variant) (base : N) (subs : list dfa) (d : dfa) : Prop :=
+  v_subacc v = true \/ (v_subacc v = false /\ subacc_ok base subs d).
+
+Lemma transition_lines_variant v base subs ids' d p t :
+  In t (iter_transitions d) -> esc_agree v d -> sub_agree v base subs d ->
+  transition_lines v base subs ids' d p t = transition_lines patched base subs ids' d p t.
 Proof.
   intros Ht Hl Hs. destruct t as [[from i] to]. unfold transition_lines, get_input.
   destruct (nthN (d_inputs d) i) as [x|] eqn:Ex; [|reflexivity]. cbn [obind].
-  unfold labels_need_escape in Hl.
-  assert (Hx : match x with ISub _ _ => True | _ => display_has_backslash x = false end).
-  { assert (Hf : forall (f : N * N * N -> bool) l0 y, existsb f l0 = false -> In y l0 -> f y = false).
+  assert (Hesc : forall y, (match y with ISub _ _ => False | _ => True end) -> y = x ->
+                           match diagnostic_display_input y with
+                           | Ok text => v_escape v text = v_escape patched text
+                           | _ => True
+                           end).
+  { intros y Hy ->. destruct (diagnostic_display_input x) as [text| | |] eqn:Ed; try exact I.
+    cbn [v_escape patched]. destruct Hl as [Hl|[Hv Hl]]; [apply Hl|]. rewrite Hv.
+    apply escape_quotes_is_dot. unfold labels_need_escape in Hl.
+    assert (Hf : forall (f : N * N * N -> bool) l0 y, existsb f l0 = false -> In y l0 -> f y = false).
     { intros f l0 y H Hin. destruct (f y) eqn:E; [|reflexivity].
       assert (existsb f l0 = true) by (apply existsb_exists; now exists y). congruence. }
     pose proof (Hf _ _ (from, i, to) Hl Ht) as H. cbn [fst snd] in H. rewrite Ex in H.
-    destruct x; try exact I; exact H. }
-  assert (Hesc : forall y, display_has_backslash y = false ->
-                           match diagnostic_display_input y with
-                           | Ok text => v_escape pinned text = v_escape patched text
-                           | _ => True
-                           end).
-  { intros y Hy. unfold display_has_backslash in Hy. destruct (diagnostic_display_input y) as [text| | |]; try exact I.
-    cbn [v_escape pinned patched]. now apply escape_quotes_is_dot. }
+    unfold display_has_backslash in H. destruct x; try (now elim Hy); now rewrite Ed in H. }
   destruct x as [t' dd l|k l|cm l|cm l|].
   2:{ destruct (lookup_sub subs k) as [sd| | |] eqn:El; try reflexivity. cbn [obind].
       destruct (assocN k ids') as [id|]; [|reflexivity]. do 2 f_equal.
-      cbn [v_subacc pinned patched]. destruct Hs as [->|Hs].
+      cbn [v_subacc patched]. destruct Hs as [->|[-> Hs]]; [reflexivity|]. destruct Hs as [->|Hs].
       - apply map_ext. intro a. now rewrite !N.add_0_r.
       - unfold lookup_sub in El. destruct (nthN subs k) as [sd'|] eqn:En; [|discriminate]. injection El as ->.
         rewrite (Hs _ k l sd Ht); [reflexivity|cbn [fst snd]; exact Ex|exact En]. }
-  all: specialize (Hesc _ Hx);
-    match goal with |- context [diagnostic_display_input ?y] => destruct (diagnostic_display_input y) as [text| | |] end;
+  all: match goal with |- context [diagnostic_display_input ?y] => specialize (Hesc y I eq_refl);
+         destruct (diagnostic_display_input y) as [text| | |] end;
     try reflexivity; cbn [obind]; now rewrite Hesc.
 Qed.
 
@@ -198,15 +205,15 @@ Proof.
   rewrite (H x (or_introl eq_refl)), IH; [reflexivity|]. intros y Hy. apply H. now right.
 Qed.
 
-Lemma do_to_dot_variant base subs d p n1 n2 :
+Lemma do_to_dot_variant v base subs d p n1 n2 :
   inputs_in_range d = true ->
-  labels_need_escape d = false -> phantom_zero d = false -> subacc_ok base subs d ->
+  esc_agree v d -> phantom_zero d = false -> sub_agree v base subs d ->
   (forall k id sd, In (k, id) (sub_ids base d) -> nthN subs k = Some sd ->
                    n1 sd (dec id ++ "_") = n2 sd (dec id ++ "_")) ->
-  do_to_dot pinned base subs d p n1 = do_to_dot patched base subs d p n2.
+  do_to_dot v base subs d p n1 = do_to_dot patched base subs d p n2.
 Proof.
   intros Hr Hl Hph Hs Hn. unfold do_to_dot. rewrite (get_subwords_spec d base Hr). cbn [obind].
-  rewrite (node_lines_variant base d p Hph).
+  rewrite (node_lines_variant v base d p Hph).
   rewrite (omap_ext _ (fun p0 : N * N =>
                          do sd <- lookup_sub subs (fst p0);
                          do inner <- n2 sd (dec (snd p0) ++ "_");
@@ -223,6 +230,12 @@ Proof.
   assert (existsb f l = true) by (apply existsb_exists; now exists x). congruence.
 Qed.
 
+Lemma existsb_false_forall {A} (f : A -> bool) l : (forall x, In x l -> f x = false) -> existsb f l = false.
+Proof.
+  induction l as [|x r IH]; intro H; [reflexivity|]. cbn. rewrite (H x (or_introl eq_refl)). cbn.
+  apply IH. intros y Hy. apply H. now right.
+Qed.
+
 Lemma used_subs_in c t k l sd :
   In t (iter_transitions (c_main c)) -> nthN (d_inputs (c_main c)) (snd (fst t)) = Some (ISub k l) ->
   nthN (c_subs c) k = Some sd -> In sd (used_subs c).
@@ -230,23 +243,35 @@ Proof.
   intros Ht E Es. unfold used_subs. apply in_flat_map. exists t. split; [exact Ht|]. rewrite E, Es. now left.
 Qed.
 
-Theorem dfa_dot_variants_agree base c :
-  wf_cdfa c = true -> known_C16 base c = false ->
-  of_dfa_with pinned base c = of_dfa_with patched base c.
+(** a variant agrees with the fully patched one on [c] *)
+Definition variant_agrees (v : variant) (base : N) (c : cdfa) : Prop :=
+  known_phantom c = false
+  /\ ((forall s, v_escape v s = escape_dot s) \/ (v_escape v = escape_quotes /\ known_labels c = false))
+  /\ (v_subacc v = true \/ (v_subacc v = false /\ known_subacc base c = false)).
+
+Theorem dfa_dot_variant_agree v base c :
+  wf_cdfa c = true -> variant_agrees v base c ->
+  of_dfa_with v base c = of_dfa_with patched base c.
 Proof.
-  intros Hwf Hk. unfold known_C16 in Hk. apply orb_false_iff in Hk as [Hk Hph]. apply orb_false_iff in Hk as [Hl Hsa].
-  unfold known_labels in Hl. apply orb_false_iff in Hl as [Hlm Hls].
+  intros Hwf [Hph [Hesc Hsub]].
   unfold known_phantom in Hph. apply orb_false_iff in Hph as [Hpm Hps].
   pose proof Hwf as Hwf'. unfold wf_cdfa, wf_dfa in Hwf'. apply andb_true_iff in Hwf' as [Hm _].
   apply andb_true_iff in Hm as [Hr _].
+  assert (Hesc_main : esc_agree v (c_main c)).
+  { destruct Hesc as [H|[Hv H]]; [now left|right]. split; [exact Hv|]. unfold known_labels in H.
+    now apply orb_false_iff in H as [H _]. }
+  assert (Hesc_sub : forall sd, In sd (used_subs c) -> esc_agree v sd).
+  { intros sd Hu. destruct Hesc as [H|[Hv H]]; [now left|right]. split; [exact Hv|]. unfold known_labels in H.
+    apply orb_false_iff in H as [_ H]. exact (existsb_false_in _ _ sd H Hu). }
   unfold of_dfa_with, dfa_items. f_equal.
-  rewrite (do_to_dot_variant base (c_subs c) (c_main c) ""
-             (fun sd p => do_to_dot pinned base [] sd p
+  rewrite (do_to_dot_variant v base (c_subs c) (c_main c) ""
+             (fun sd p => do_to_dot v base [] sd p
                             (fun _ _ => Panic "within-word automaton inside a within-word automaton"))
              (fun sd p => do_to_dot patched base [] sd p
                             (fun _ _ => Panic "within-word automaton inside a within-word automaton")));
-    [reflexivity|exact Hr|exact Hlm|exact Hpm| |].
+    [reflexivity|exact Hr|exact Hesc_main|exact Hpm| |].
   - (* dashed edges out of clusters *)
+    destruct Hsub as [H|[Hv Hsa]]; [now left|right]. split; [exact Hv|].
     unfold known_subacc in Hsa. apply andb_false_iff in Hsa as [Hb|Hacc].
     + left. apply negb_false_iff in Hb. now apply N.eqb_eq in Hb.
     + right. intros t k l sd Ht E Es. pose proof (existsb_false_in _ _ sd Hacc (used_subs_in c t k l sd Ht E Es)) as H.
@@ -258,19 +283,58 @@ Proof.
     unfold wf_dfa in Hw. apply andb_true_iff in Hw as [Hrs _].
     apply do_to_dot_variant.
     + exact Hrs.
-    + exact (existsb_false_in _ _ sd Hls Hu).
+    + exact (Hesc_sub sd Hu).
     + exact (existsb_false_in _ _ sd Hps Hu).
-    + right. intros t' k' l' sd' Ht' E'. exfalso.
-      unfold no_sub_trans in Hns. rewrite forallb_forall in Hns. specialize (Hns t' Ht'). now rewrite E' in Hns.
+    + assert (Hnone : forall t' k' l' sd', In t' (iter_transitions sd) ->
+                        nthN (d_inputs sd) (snd (fst t')) = Some (ISub k' l') -> nthN [] k' = Some sd' -> d_accepting sd' = []).
+      { intros t' k' l' sd' Ht' E'. exfalso.
+        unfold no_sub_trans in Hns. rewrite forallb_forall in Hns. specialize (Hns t' Ht'). now rewrite E' in Hns. }
+      destruct (v_subacc v) eqn:Ev; [left; exact Ev|right]. split; [exact Ev|]. right. exact Hnone.
     + intros k' id' sd' Hin'. exfalso. unfold sub_ids, sub_order in Hin'.
       change (transitions sd) with (iter_transitions sd) in Hin'. fold (uses sd (iter_transitions sd)) in Hin'.
       rewrite (uses_nil sd Hns) in Hin'. exact Hin'.
 Qed.
 
-Theorem dfa_dot_pinned base c :
-  wf_cdfa c = true -> known_C16 base c = false ->
+(** the code before commit 0e66d33, outside its three classes *)
+Theorem dfa_dot_old_agree base c :
+  wf_cdfa c = true -> known_C16_old base c = false ->
+  of_dfa_with old base c = of_dfa_with patched base c.
+Proof.
+  intros Hwf Hk. unfold known_C16_old in Hk. apply orb_false_iff in Hk as [Hk Hph]. apply orb_false_iff in Hk as [Hl Hsa].
+  apply dfa_dot_variant_agree; [exact Hwf|]. split; [exact Hph|]. split; [right; now split|right; now split].
+Qed.
+
+(** the code as it is now, when state 0 is a state *)
+Theorem dfa_dot_current_agree base c :
+  wf_cdfa c = true -> known_phantom c = false ->
+  of_dfa base c = of_dfa_with patched base c.
+Proof.
+  intros Hwf Hph. apply dfa_dot_variant_agree; [exact Hwf|]. split; [exact Hph|]. split; [now left|now left].
+Qed.
+
+Lemma starts_at_zero_no_phantom c : starts_at_zero c = true -> known_phantom c = false.
+Proof.
+  unfold starts_at_zero, known_phantom, phantom_zero. intro H. apply andb_true_iff in H as [H1 H2].
+  apply N.eqb_eq in H1. apply orb_false_iff. split.
+  - rewrite H1. cbn [memN existsb]. reflexivity.
+  - apply existsb_false_forall. intros sd Hsd. rewrite forallb_forall in H2. specialize (H2 sd Hsd).
+    apply N.eqb_eq in H2. rewrite H2. reflexivity.
+Qed.
+
+Theorem dfa_dot_current base c :
+  wf_cdfa c = true -> known_phantom c = false ->
   exists text g, of_dfa base c = Ok text /\ read text = Some g
                  /\ gview_equiv (view g) (graph_of_dfa base c).
-Proof.
-  intros Hwf Hk. unfold of_dfa. rewrite (dfa_dot_variants_agree base c Hwf Hk). now apply dfa_dot_patched.
-Qed.
+Proof. intros Hwf Hk. rewrite (dfa_dot_current_agree base c Hwf Hk). now apply dfa_dot_patched. Qed.
+
+Theorem dfa_dot_current_min base c :
+  wf_cdfa c = true -> starts_at_zero c = true ->
+  exists text g, of_dfa base c = Ok text /\ read text = Some g
+                 /\ gview_equiv (view g) (graph_of_dfa base c).
+Proof. intros Hwf Hz. apply dfa_dot_current; [exact Hwf|now apply starts_at_zero_no_phantom]. Qed.
+
+Theorem dfa_dot_old base c :
+  wf_cdfa c = true -> known_C16_old base c = false ->
+  exists text g, of_dfa_with old base c = Ok text /\ read text = Some g
+                 /\ gview_equiv (view g) (graph_of_dfa base c).
+Proof. intros Hwf Hk. rewrite (dfa_dot_old_agree base c Hwf Hk). now apply dfa_dot_patched. Qed.
